@@ -966,10 +966,11 @@ enum OneShotHandlePressKey {
 
 impl OneShotState {
     fn tick_osh(&mut self) -> Option<ReleasedOneShotKeys> {
+        // This pause is for a time; it runs out whether or not a one-shot is active.
+        self.ticks_to_ignore_events = self.ticks_to_ignore_events.saturating_sub(1);
         if self.keys.is_empty() {
             return None;
         }
-        self.ticks_to_ignore_events = self.ticks_to_ignore_events.saturating_sub(1);
         self.timeout = self.timeout.saturating_sub(1);
         if self.release_on_next_tick || self.timeout == 0 {
             self.release_on_next_tick = false;
